@@ -681,8 +681,68 @@ func genRaw(w *world, t *trace.W, r *rng.R, maxOps int) {
 	w.do(t, "check 0")
 }
 
+// genFollowerFault: a follower that saves regions to its default kv; the write of chosen region keys fails once
+// or persistently while regions arrive by full / incremental synchronisation and by broadcast.  The follower's
+// in-memory view must still follow the leader (only its storage and its history index stay behind).
+func genFollowerFault(w *world, t *trace.W, r *rng.R, maxOps int, reuse *int) {
+	w.do(t, "reset")
+	w.do(t, fmt.Sprintf("leader %d", []int{2, 10, 100, 0}[r.Intn(4)]))
+	g := &gstate{r: r}
+	g.populate([]int{1, 3, 8, 40, 120}[r.Intn(5)], false)
+	for _, x := range g.regs {
+		w.do(t, "put "+x.spec())
+	}
+	w.do(t, fmt.Sprintf("follower %d plain", []int{3, 100, 0}[r.Intn(3)]))
+	anyID := func() uint64 { return g.regs[r.Intn(len(g.regs))].id }
+	mode := func() string { return []string{"once", "once", "always"}[r.Intn(3)] }
+	for k := r.Intn(3); k > 0; k-- {
+		w.do(t, fmt.Sprintf("failsave 0 %d %s", anyID(), mode()))
+	}
+	w.do(t, "connect 0 "+orders[r.Intn(len(orders))])
+	w.do(t, "check 0")
+	connected := true
+	for k := r.Range(3, maxOps/2+3); k > 0; k-- {
+		switch r.Pick(30, 40, 10, 8, 12) {
+		case 0:
+			w.do(t, fmt.Sprintf("failsave 0 %d %s", anyID(), mode()))
+		case 1: // a change of a region (often one whose save is set to fail)
+			x := g.regs[r.Intn(len(g.regs))]
+			x.leader = g.pickLeader(x.peers, false)
+			x.st = g.stats()
+			if r.Bool(1, 3) {
+				x.cv++
+				x.peers = append(x.peers, g.newPeers(1)...)
+			}
+			if r.Bool(1, 2) {
+				w.do(t, fmt.Sprintf("failsave 0 %d %s", x.id, mode()))
+			}
+			w.do(t, "put "+x.spec())
+			if connected {
+				w.do(t, "check 0")
+			}
+		case 2:
+			w.do(t, fmt.Sprintf("failsave 0 %d off", anyID()))
+		case 3:
+			if *reuse > 0 {
+				*reuse--
+				w.do(t, "restart 0")
+				w.do(t, "connect 0 "+orders[r.Intn(len(orders))])
+				connected = true
+				w.do(t, "check 0")
+			}
+		case 4:
+			if connected {
+				w.do(t, "check 0")
+			}
+		}
+	}
+	w.do(t, "check 0")
+}
+
 func gen(w *world, t *trace.W, r *rng.R, maxOps int, reuse *int) {
-	switch r.Pick(42, 38, 13, 7) {
+	switch r.Pick(41, 36, 12, 6, 5) {
+	case 4:
+		genFollowerFault(w, t, r, maxOps, reuse)
 	case 0:
 		genHB(w, t, r, maxOps)
 	case 1:
